@@ -17,7 +17,7 @@ from .kernel import Decider, HarnessError
 TIERS = {
     "C18": {"quick": dict(runs=48_000, wall_cap=75, chunk=250), "thorough": dict(runs=3_000_000, wall_cap=900, chunk=1000)},
     "C19": {"quick": dict(runs=16_000, wall_cap=100, chunk=100), "thorough": dict(runs=1_500_000, wall_cap=1200, chunk=400)},
-    "C10": {"quick": dict(runs=1_200, wall_cap=120, chunk=10), "thorough": dict(runs=60_000, wall_cap=1500, chunk=20)},
+    "C10": {"quick": dict(runs=2_000, wall_cap=200, chunk=10), "thorough": dict(runs=60_000, wall_cap=1500, chunk=20)},
 }
 
 
